@@ -46,8 +46,8 @@ def setup():
 
 
 class World:
-    def __init__(self, procs, eintr_at=None):
-        """procs: list of dict(pid, kind, exit_at (None=never), status)"""
+    def __init__(self, procs, eintr_at=None, wall_steps=()):
+        """procs: list of dict(pid, kind, exit_at (None=never), status); wall_steps: [(at, delta)] calendar-clock steps"""
         env = setup()
         self.ps = env["ps"]
         t = env["ProcTable"](self_pid=2)
@@ -55,6 +55,12 @@ class World:
         t.spawn(2, 2, ppid=1, comm=b"harness")
         self.clock = env["vkernel"].VClock(5000.0)
         self.t0 = self.clock.t
+        self.clock.wall_offset = 0.0
+
+        def step(delta):
+            self.clock.wall_offset += delta
+        for at, delta in wall_steps:
+            self.clock.at(self.t0 + at, lambda delta=delta: step(delta))
         self.polls = []       # (time, pid, result)
         self.eintr_at = eintr_at
         self.nwait = 0
@@ -92,11 +98,19 @@ class World:
     def __enter__(self):
         env = _env
         self.vk.__enter__()
+        import time as _time
+
+        def wall():
+            return self.clock.now() + self.clock.wall_offset + 1_700_000_000.0
+
+        def virtual(fn):
+            # whichever clock the code chose keeps its nature: the monotonic one never steps, the calendar one does
+            return wall if fn is _time.time else self.clock.now
         d = list(env["orig_defaults"])
-        d[3] = self.clock.now
+        d[3] = virtual(d[3])
         d[5] = self.clock.sleep
         env["pp"].wait_pid.__defaults__ = tuple(d)
-        self.ps._timer = self.clock.now
+        self.ps._timer = virtual(env["orig_timer"])
         return self
 
     def __exit__(self, *a):
@@ -125,7 +139,8 @@ def run_wait_case(case, acc):
     viols = []
     kind, exit_at, status, timeout = case["kind"], case["exit_at"], case["status"], case["timeout"]
     ctx = f"case={case}"
-    w = World([dict(pid=PID, kind=kind, exit_at=exit_at, status=status)], eintr_at=case.get("eintr_at"))
+    w = World([dict(pid=PID, kind=kind, exit_at=exit_at, status=status)], eintr_at=case.get("eintr_at"),
+              wall_steps=case.get("wall_steps", ()))
     nontrivial = case.get("eintr_at") is not None
     with w:
         if kind == "never":
@@ -314,6 +329,10 @@ def gen_wait_case(rng):
     case = dict(kind=kind, exit_at=exit_at, status=status, timeout=timeout)
     if kind == "child" and rng.random() < 0.2:
         case["eintr_at"] = rng.randrange(0, 30)
+    if rng.random() < 0.25:
+        # the calendar clock is stepped (NTP, date -s, VM resume) while the wait is in progress
+        case["wall_steps"] = [[rng.random() * ((timeout or 1.0) + 0.2), rng.choice([-3600.0, -3.0, 3.0, 3600.0, -0.5, 0.5])]
+                              for _ in range(rng.randrange(1, 3))]
     return case
 
 
@@ -326,7 +345,7 @@ def run_wait_procs_case(case, acc):
     procs = case["procs"]
     timeout = case["timeout"]
     ctx = f"case={case}"
-    w = World(procs)
+    w = World(procs, wall_steps=case.get("wall_steps", ()))
     with w:
         objs = [ps.Process(pr["pid"]) for pr in procs]
         # the same process mentioned more than once: the very same object again, or a second equal object
@@ -353,7 +372,13 @@ def run_wait_procs_case(case, acc):
         w.clock.advance(0)
         start = w.clock.t
         try:
-            gone, alive = ps.wait_procs(given, timeout=timeout, callback=cb)
+            # the processes may be handed over in any iterable (the function only needs to walk it once)
+            form = case.get("form", "list")
+            arg = {"list": given, "tuple": tuple(given), "generator": (x for x in given), "iterator": iter(given),
+                   "filter": filter(None, given), "dict_keys": dict.fromkeys(given).keys()}[form]
+            if form != "list":
+                acc.count("wait_procs_given_another_iterable")
+            gone, alive = ps.wait_procs(arg, timeout=timeout, callback=cb)
         except Exception as e:  # noqa: BLE001
             viols.append((f"wait_procs_exception:{type(e).__name__}", ctx + f" {e!r}"))
             acc.case(case, True, viols)
@@ -429,6 +454,10 @@ def gen_wait_procs_case(rng):
         procs.append(dict(pid=70 + i, kind=rng.choice(["child", "nonchild"]), exit_at=x,
                           status=rng.choice([rng.randrange(256) << 8, rng.randrange(1, 32)])))
     case = dict(procs=procs, timeout=timeout, callback=rng.random() < 0.8)
+    if rng.random() < 0.2:
+        case["wall_steps"] = [[rng.random() * ((timeout or 1.0) + 0.2), rng.choice([-3600.0, -3.0, 3.0, 3600.0])]]
+    if rng.random() < 0.3:
+        case["form"] = rng.choice(["tuple", "generator", "iterator", "filter", "dict_keys"])
     if rng.random() < 0.3:
         case["prewait"] = sorted({rng.randrange(n) for _ in range(rng.randrange(1, 4))})
     if rng.random() < 0.3:
